@@ -992,8 +992,11 @@ impl Debug for ScmpTracerouteReplyMessageView {
 pub struct ScmpUnknownMessageView([u8]);
 gen_view_impl!(ScmpUnknownMessageView, ScmpUnknownMessageLayout);
 impl ScmpUnknownMessageView {
-    gen_field_read_and_write!(
-        message_type,
+    gen_field_read!(message_type, ScmpUnknownMessageLayout::TYPE_RNG, u8);
+    // Changing the type of a message changes which view is handed out for the same bytes, and the
+    // views of the known types rely on their minimum size having been checked. Unsafe like the
+    // `set_message_type` of every other message view.
+    gen_unsafe_field_write!(
         set_message_type,
         ScmpUnknownMessageLayout::TYPE_RNG,
         u8
